@@ -14,14 +14,26 @@ def load_spec(name):
 
 
 def leaves_of(node, limit=4000):
+    """Parameters / inputs the value of `node` is computed from (data dependence
+    only: conditions of phi nodes are not followed, so that the set does not
+    depend on how the surrounding control flow is written)."""
     names = set()
+    seen = set()
+    stack = [node]
     cnt = 0
-    for n in walk(node):
+    while stack and cnt < limit:
+        n = stack.pop()
+        if n is None or n.nid in seen:
+            continue
+        seen.add(n.nid)
         cnt += 1
-        if cnt > limit:
-            break
         if n.kind in ('param', 'input'):
             names.add(str(n.val))
+        args = n.args[1:] if n.kind == 'phi' else n.args
+        stack.extend(a for a in args if a is not None)
+        stack.extend(a for a in n.kw.values() if a is not None)
+        if n.ho and n.ho.get('result') is not None:
+            stack.append(n.ho['result'])
     return sorted(names)
 
 
